@@ -89,10 +89,20 @@ Section Pool.
   Variable pool : list str.
   Hypothesis pool_small : Z.of_nat (length pool) <= 32767.
 
-  Lemma dict_layout d : Forall (entry_ok pool) d -> LDict pool d (enc_dict pool d).
+  (* what the LAYOUT needs of a dictionary entry: the key is in the pool and the value is encodable.
+     (Nothing about pool indices with low byte 0x88: the F9 ambiguity concerns readers only.) *)
+  Definition entry_okL (kv : str * gval) : Prop := In (fst kv) pool /\ gvalb (snd kv) = true.
+  Definition meta_okL (m : meta) : Prop :=
+    ostrb (m_risk_basis m) = true /\ ostrb (m_country m) = true /\ ostrb (m_currency m) = true
+    /\ ostrb (m_reinsurance_basis m) = true /\ ostrb (m_loss_definition m) = true
+    /\ limitb (m_limit m) = true /\ Forall entry_okL (m_details m) /\ Forall entry_okL (m_loss_details m).
+  Definition cell_okL (c : cell) : Prop :=
+    cellb c = true /\ Forall entry_okL (c_values c) /\ meta_okL (c_meta c).
+
+  Lemma dict_layout d : Forall entry_okL d -> LDict pool d (enc_dict pool d).
   Proof.
     induction d as [|[k v] r IH]; intros H; cbn [enc_dict]; [constructor|].
-    inversion H as [|? ? [Hin [_ Hv]] Hr]; subst. cbn [fst snd] in *.
+    inversion H as [|? ? [Hin Hv] Hr]; subst. cbn [fst snd] in *.
     pose proof (index_of_range _ _ Hin) as Hi.
     apply LD_entry with (i := Z.to_nat (index_of k pool)).
     - now apply index_of_nth.
@@ -104,15 +114,15 @@ Section Pool.
   Lemma limit_layout o : LLimit o (enc_limit o).
   Proof. destruct o; constructor. Qed.
 
-  Lemma meta_layout m : meta_ok pool m -> LMeta pool m (enc_meta pool m).
+  Lemma meta_layout m : meta_okL m -> LMeta pool m (enc_meta pool m).
   Proof.
-    intros (H1 & H2 & H3 & H4 & H5 & H6 & [H7 _] & [H8 _]). unfold enc_meta.
+    intros (H1 & H2 & H3 & H4 & H5 & H6 & H7 & H8). unfold enc_meta.
     constructor; auto using text_layout, limit_layout, dict_layout.
   Qed.
 
-  Lemma cell_layout c : cell_ok pool c -> LCell pool c (cell_tag (c_kind c) :: enc_cell pool c).
+  Lemma cell_layout c : cell_okL c -> LCell pool c (cell_tag (c_kind c) :: enc_cell pool c).
   Proof.
-    intros (Hc & [Hv _] & _).
+    intros (Hc & Hv & _).
     destruct (cellb_facts pool _ Hc) as (D1 & D2 & D3 & _ & _ & _ & _ & Hp).
     unfold enc_cell, prevb in *.
     destruct (c_kind c) eqn:Ek; destruct (c_prev c) as [p|] eqn:Ep; try discriminate; cbn [cell_tag].
@@ -144,7 +154,7 @@ Proof. destruct o; simpl; auto using zlist_eqb_refl. Qed.
 Lemma meta_eqb_refl m : meta_eqb m m = true.
 Proof. unfold meta_eqb. now rewrite !ostr_eqb_refl, !dict_eqb_refl. Qed.
 
-Lemma body_layout pool t : Z.of_nat (length pool) <= 32767 -> Forall (cell_ok pool) t -> forall prev,
+Lemma body_layout pool t : Z.of_nat (length pool) <= 32767 -> Forall (cell_okL pool) t -> forall prev,
   LBody pool prev t (enc_body pool prev t).
 Proof.
   intros Hsmall.
@@ -172,16 +182,38 @@ Proof.
   - intros [c [Hc [Hk|[Hk|Hk]]]]; [left|right|right]; exists c; split; auto; apply in_or_app; auto.
 Qed.
 
-Theorem ser_layout t : wf t -> no_0x88_key t -> Layout t (ser t).
+Lemma dict_okL_of pool d :
+  dictb d = true -> (forall k, In k (dict_keys d) -> In k pool) -> Forall (entry_okL pool) d.
 Proof.
-  intros Hwf H88. unfold ser.
+  intros Hd Hin. destruct (dictb_facts _ Hd) as [Hkv _].
+  apply Forall_forall. intros kv Hkvin. split.
+  - apply Hin. now apply in_map.
+  - apply Hkv, Hkvin.
+Qed.
+
+Lemma cells_okL_of t : wf t -> Forall (cell_okL (pool_of t)) t.
+Proof.
+  unfold wf, wfb. intros Hwf. apply andb_true_iff in Hwf as [Hcells _].
+  rewrite forallb_forall in Hcells. apply Forall_forall. intros c Hc. specialize (Hcells c Hc).
+  destruct (cellb_parts _ Hcells) as [Hv Hm].
+  destruct (metab_facts _ Hm) as (M1 & M2 & M3 & M4 & M5 & M6 & M7 & M8).
+  split; [exact Hcells|]. split.
+  - apply dict_okL_of; auto. intros k Hk. apply sort_dedup_in. eapply in_all_keys_values; eauto.
+  - refine (conj M1 (conj M2 (conj M3 (conj M4 (conj M5 (conj M6 (conj _ _))))))).
+    + apply dict_okL_of; auto. intros k Hk. apply sort_dedup_in. eapply in_all_keys_details; eauto.
+    + apply dict_okL_of; auto. intros k Hk. apply sort_dedup_in. eapply in_all_keys_loss; eauto.
+Qed.
+
+Theorem ser_layout t : wf t -> Layout t (ser t).
+Proof.
+  intros Hwf. unfold ser.
   pose proof (pool_small_of _ Hwf) as Hs. pose proof (pool_strs_ok _ Hwf) as Hp.
   change MAGIC with [175; 54; 1; 0]. change [VERSION] with [1]. unfold enc_pool.
   apply Layout_i with (pool := pool_of t).
   - apply is_pool_of.
   - unfold of_s16. rewrite Z.mod_small by lia. apply LE_enc. change (256 ^ Z.of_nat 2) with 65536. lia.
   - now apply texts_layout.
-  - apply body_layout; [exact Hs | now apply cells_ok_of].
+  - apply body_layout; [exact Hs | now apply cells_okL_of].
 Qed.
 
 (* ------------------------------------------------------------------ the layout determines the bytes *)
@@ -284,5 +316,37 @@ Qed.
 (* files satisfying the layout -- whoever wrote them -- are read back exactly *)
 Theorem layout_parse t bs : wf t -> no_0x88_key t -> Layout t bs -> parse bs = ROk (cells t).
 Proof.
-  intros Hwf H88 HL. rewrite (layout_det t bs (ser t) HL (ser_layout t Hwf H88)). now apply parse_ser.
+  intros Hwf H88 HL. rewrite (layout_det t bs (ser t) HL (ser_layout t Hwf)). now apply parse_ser.
 Qed.
+
+(* ------------------------------------------------------------------ faithful vs structural writer *)
+(* on coherent triangles the writer with Python's == and the structural writer emit the same file *)
+Lemma enc_body_coherent meq pool t : forall prev,
+  (forall c, In c t -> meq (c_meta c) (c_meta c) = true) -> rep_with meq prev prev t = t ->
+  enc_body_with meq pool prev t = enc_body pool prev t.
+Proof.
+  induction t as [|c cs IH]; intros prev Hr Hrep; cbn [enc_body_with enc_body]; [reflexivity|].
+  cbn [rep_with] in Hrep.
+  destruct (same_meta meq prev (c_meta c)) eqn:E.
+  - destruct prev as [p|]; cbn [same_meta] in E; [|discriminate].
+    injection Hrep as Hc Hcs. cbn [cur_meta] in Hc.
+    assert (p = c_meta c) by (rewrite <- Hc; reflexivity). subst p.
+    cbn [ometa_eqb]. rewrite meta_eqb_refl. rewrite IH; auto. intros d Hd. apply Hr. now right.
+  - injection Hrep as Hcs.
+    assert (ometa_eqb prev (c_meta c) = false) as ->.
+    { destruct prev as [p|]; [|reflexivity]. cbn [ometa_eqb same_meta] in *.
+      destruct (meta_eqb p (c_meta c)) eqn:E2; [|reflexivity].
+      apply meta_eqb_eq in E2. subst p. rewrite (Hr c (or_introl eq_refl)) in E. discriminate. }
+    rewrite IH; auto. intros d Hd. apply Hr. now right.
+Qed.
+
+Theorem ser_py_coherent t : coherentb t = true -> pyeq_reflb t = true -> ser_py t = ser t.
+Proof.
+  intros Hc Hr. unfold ser_py, ser_with, ser. do 3 f_equal.
+  apply enc_body_coherent.
+  - intros c Hin. unfold pyeq_reflb in Hr. rewrite forallb_forall in Hr. now apply Hr.
+  - apply cells_eqb_eq. exact Hc.
+Qed.
+
+Theorem ser_py_layout t : wf t -> coherentb t = true -> pyeq_reflb t = true -> Layout t (ser_py t).
+Proof. intros H1 H2 H3. rewrite (ser_py_coherent t H2 H3). now apply ser_layout. Qed.
